@@ -76,6 +76,16 @@ GENERIC_ITEMS = [  # compile-valid generic declarations per derive family (deriv
     ("MulAssign", "#[derive(derive_more::MulAssign, derive_more::DivAssign, derive_more::RemAssign, derive_more::ShrAssign, derive_more::ShlAssign)] pub struct G<T, U>(pub T, pub U);"),
     ("Not", "#[derive(derive_more::Not, derive_more::Neg)] pub struct G<T, U = T>(pub T, pub U);"),
     ("Not", "#[derive(derive_more::Not)] pub enum G<T> { A(T), B { x: T }, U }"),
+    # parameters DECLARED with the operator's trait (no `Output = ..`): the impl still needs `T: Op<Output = T>` next to it
+    ("Add", "#[derive(derive_more::Add, derive_more::Sub)] pub struct G<T: core::ops::Add + core::ops::Sub>(pub T, pub T);"),
+    ("Add", "#[derive(derive_more::BitAnd, derive_more::BitOr)] pub struct G<T> where T: core::ops::BitAnd, T: core::ops::BitOr { pub a: T }"),
+    ("Add", "#[derive(derive_more::Add)] pub enum G<T: core::ops::Add> { A(T), B { x: T }, C }"),
+    ("Not", "#[derive(derive_more::Not, derive_more::Neg)] pub struct G<T: core::ops::Neg + core::ops::Not>(pub T, pub T);"),
+    ("Mul", "#[derive(derive_more::Mul)] #[mul(forward)] pub struct G<T: core::ops::Mul>(pub T, pub T);"),
+    ("Mul", "#[derive(derive_more::Mul, derive_more::Div)] pub struct G<T: core::ops::Mul<i32> + core::ops::Div<i32>>(pub T);"),
+    ("MulAssign", "#[derive(derive_more::MulAssign)] pub struct G<T: core::ops::MulAssign<u8>>(pub T);"),
+    ("AddAssign", "#[derive(derive_more::AddAssign)] pub struct G<T: core::ops::AddAssign>(pub T, pub T);"),
+    ("Sum", "#[derive(derive_more::Sum, derive_more::Add)] pub struct G<T: core::ops::Add>(pub T, pub T);"),
     ("Sum", "#[derive(derive_more::Sum, derive_more::Add)] pub struct G<T>(pub T, pub T);"),
     ("Product", "#[derive(derive_more::Product, derive_more::Mul)] #[mul(forward)] pub struct G<T>(pub T, pub T);"),
 ]
@@ -165,6 +175,14 @@ def header_violations(o, name, decl, gitem=""):
         names = [p.split(":")[0].replace("const ", "").strip() for p in im["params"]]
         if len(set(names)) != len(names):
             out.append(("Fresh", f"duplicate parameter names: <{', '.join(im['params'])}>"))
+        # Fresh: a parameter the expansion introduces for itself must be a name no declaration would use - the type may
+        # declare ANY parameters and mention ANY of the caller's types in its fields, so an ordinary identifier (`Rhs`, `T0`,
+        # `'a`) captures them; derive_more's own names all start with two underscores
+        own = {q["name"] for q in decl}
+        for nm in names:
+            if nm not in own and not nm.lstrip("'").startswith("__"):
+                out.append(("Fresh", f"the expansion introduces the generic parameter `{nm}`, an ordinary name a declaration (or a field type) "
+                                     f"may use itself: <{', '.join(im['params'])}>"))
     return out
 
 
